@@ -12,7 +12,7 @@ SEAM = ("Trusted base: the harness seam (real SimApp wired by e2e.AppConfig, mes
 CHECKS = {
  "C19": ("model_checking",
          "explicit-state exhaustive search (depth-bounded DFS with canonical-state dedup) over the real record keeper on branched stores, append-only reference list compared in every state",
-         "Every sequence of <= depth create/multi-message/block operations by 2 creators over 2 contents is executed on the real message server; ids are checked unique along every path and every earlier record is re-read (contents, creator, tx hash) in every reached state; the Msg service descriptor is enumerated for other entry points. Every state also reads the ids known from other paths of the process (absent unless created on this path). One part adds restart-from-genesis: every record must survive it exactly once and the module may not refuse its own export (ids recomputed on import: recorded finding).",
+         "Every sequence of <= depth create/multi-message/block operations by 2 creators over 2 contents is executed on the real message server; ids are checked unique along every path and every earlier record is re-read (contents, creator, tx hash) in every reached state; the Msg service descriptor is enumerated for other entry points. Every state also reads the ids known from other paths of the process (absent unless created on this path). One part adds restart-from-genesis: every record must survive it exactly once and the module may not refuse its own export (ids recomputed on import: recorded finding). One part picks transactions so that the returned id begins with a zero byte.",
          "DESIGN.md §3 C19"),
  "C05": ("model_checking",
          "explicit-state exhaustive search over stake/unstake/harvest/adjust/destroy/block sequences on the real farm keeper (branched stores, canonical-state dedup), with a full-withdrawal epilogue in every order evaluated in every reached state",
@@ -28,7 +28,7 @@ CHECKS = {
          "DESIGN.md §3 C01"),
  "C02": ("model_checking",
          "explicit-state exhaustive search over swap/liquidity message sequences with a full balance-sheet oracle (all accounts of the universe + supply per denom) and a differential bound oracle (amounts learned on a throw-away branch, then bounds set exact / off by one)",
-         "Every sequence up to the depth bound of sell/buy orders (single and routed, recipient = sender / other / blocked, bounds loose / exact / missed by one, deadline now / past) and liquidity messages (incl. first add on a new pool with creation fee, re-seeding a drained pool): the observed delta of every account and every supply must equal exactly what the property allows; stated maxima/minima and deadlines are checked on what actually moved. A withdrawal offering a coin that merely looks like a liquidity token (name ending in a pool's sequence number) must never succeed.",
+         "Every sequence up to the depth bound of sell/buy orders (single and routed, recipient = sender / other / blocked, bounds loose / exact / missed by one, deadline now / past) and liquidity messages (incl. first add on a new pool with creation fee, re-seeding a drained pool): the observed delta of every account and every supply must equal exactly what the property allows; stated maxima/minima and deadlines are checked on what actually moved. A withdrawal offering a coin that merely looks like a liquidity token (name ending in a pool's sequence number) must never succeed, nor may a one-sided add / remove naming a third denomination that merely rests on the pool's escrow account.",
          "DESIGN.md §3 C02"),
  "C03": ("model_checking",
          "explicit-state exhaustive search over create/claim/block/jump-to-expiry sequences on the real HTLC keeper with a contract-status reference model and a full balance-sheet oracle per message and per begin-block",
@@ -48,23 +48,23 @@ CHECKS = {
          "DESIGN.md §3 C20"),
  "C09": ("model_checking",
          "explicit-state exhaustive search over issue/edit/mint/burn/transfer-owner sequences by owner and stranger on the real token keeper (13 explorations: identity collisions, cap at scales 0/1/18, 9 fee-parameter sets), exact big-integer supply/burn reference compared through every query",
-         "Every sequence up to the depth bound: symbol and min unit unique forever (incl. the native token), only the current owner edits/mints/hands over, non-mintable never mints, supply <= max*10^scale after every success, an accepted edit never leaves the cap below circulation, burn tally exact, fee = fee-pool part + burned part with an empty module account for tax and mint-ratio in {0,0.4,1}. One variant starts from a genesis that lists a token without an owner: every owner-only message on it must fail.",
+         "Every sequence up to the depth bound: symbol and min unit unique forever (incl. the native token), only the current owner edits/mints/hands over, non-mintable never mints, supply <= max*10^scale after every success, an accepted edit never leaves the cap below circulation, burn tally exact, fee = fee-pool part + burned part with an empty module account for tax and mint-ratio in {0,0.4,1}. One variant starts from a genesis that lists a token without an owner: every owner-only message on it must fail. One variant lets governance register an ERC20 contract for an IBC asset under a new, a taken and a case-variant symbol: issued tokens keep their identity.",
          "DESIGN.md §3 C09"),
  "C07": ("model_checking",
          "explicit-state exhaustive search over call/respond/withdraw/bind-update-disable-enable-refund/block sequences on the real service keeper with a relational balance-sheet oracle per message and per end-block and conservation invariants in every state",
-         "Every sequence up to the depth bound over 3 providers (time promotion, volume promotion, plain price), 2 owners, a rich and a poor consumer, one-shot and repeated contexts: deposit escrow = sum of recorded deposits; request escrow = active request fees + unwithdrawn earned fees (provider and owner tallies agree); per end-block the consumer is charged exactly the fees recorded on the new requests, expired requests are refunded in full and slash floor(deposit*fraction) to the fee pool; per response fee minus floor(fee*tax) is earned and the tax reaches the fee pool; withdrawals and deposit moves are exact.",
+         "Every sequence up to the depth bound over 3 providers (time promotion, volume promotion, plain price), 2 owners, a rich and a poor consumer, one-shot and repeated contexts: deposit escrow = sum of recorded deposits; request escrow = active request fees + unwithdrawn earned fees (provider and owner tallies agree); per end-block the consumer is charged exactly the fees recorded on the new requests, expired requests are refunded in full and slash floor(deposit*fraction) to the fee pool; per response fee minus floor(fee*tax) is earned and the tax reaches the fee pool; withdrawals and deposit moves are exact. A part gives the poor consumer a batch of two requests of which he can pay one: nothing may be charged for requests that are not issued.",
          "DESIGN.md §3 C07"),
  "C08": ("model_checking",
          "explicit-state exhaustive search over call/respond (by addressed provider, other provider, stranger, duplicate)/pause/start/kill/update (by consumer and stranger)/block sequences with a request-status and batch-schedule reference model; module callbacks registered on the real keeper and counted from emitted events",
-         "Every sequence up to the depth bound: each request is answered once by its provider while active or expires at its expiration height, never both; foreign/duplicate/late answers are rejected; one-shot contexts issue one batch and are removed; an unmodified running repeated context issues batch n+1 exactly its frequency after batch n below its total, never a batch beyond its total whatever pauses and starts came before (part total-boundary), and nothing while paused (also not in the block that auto-pauses it for lack of funds); only the consumer controls a context; the registered callback fires exactly once per completed batch with success iff outputs >= threshold.",
+         "Every sequence up to the depth bound: each request is answered once by its provider while active or expires at its expiration height, never both; foreign/duplicate/late answers are rejected; one-shot contexts issue one batch and are removed; an unmodified running repeated context issues batch n+1 exactly its frequency after batch n below its total, never a batch beyond its total whatever pauses and starts came before (part total-boundary), requests expire at the height they record also after governance lowered the maximum timeout below an existing context's (part outcomes-params-change), and nothing while paused (also not in the block that auto-pauses it for lack of funds); only the consumer controls a context; the registered callback fires exactly once per completed batch with success iff outputs >= threshold.",
          "DESIGN.md §3 C08"),
  "C14": ("model_checking",
          "explicit-state exhaustive search over issue/mint/edit/transfer/burn/transfer-class sequences by creator, owner and stranger on the real NFT keeper for all four restriction-flag combinations, reference ownership/metadata model compared through the queries after every message",
-         "Every sequence up to the depth bound (thorough tier reaches the fixpoint of the closed system): forbidden operations never succeed, one owner per token agreeing across all queries, restricted mint only by the creator, metadata of update-restricted classes never changes (also via transfer-with-changes and after a class handover), ids stable, supply = tokens = sum of balances.",
+         "Every sequence up to the depth bound (thorough tier reaches the fixpoint of the closed system): forbidden operations never succeed, one owner per token agreeing across all queries, restricted mint only by the creator, metadata of update-restricted classes never changes (also via transfer-with-changes and after a class handover), ids stable, supply = tokens = sum of balances. A scripted part gives one owner 130 tokens of a class (more than a page of the module's listings) and judges supply, per-owner balances and the paged listings after every step.",
          "DESIGN.md §3 C14"),
  "C16": ("model_checking",
          "exhaustive enumeration of boundary parameter sets (single-field deviations, pairs among fee/tax fields, full product for small modules) crossed with senders, genesis import and the module's operation menu, each executed on the real application on its own state branch",
-         "For coinswap, farm, htlc, service, token: every parameter set of the lattice is sent by the authority and by a stranger and pushed through genesis validation/import - stored iff authority and the module's Validate() accepts; under every accepted set every operation that succeeds under the defaults is run on a fork followed by two blocks - a panic in a handler or blocker that does not occur under the defaults is a violation. Token: the base set carries a beacon address; the beacon field ranges over every accepted spelling.",
+         "For coinswap, farm, htlc, service, token: every parameter set of the lattice is sent by the authority and by a stranger and pushed through genesis validation/import - stored iff authority and the module's Validate() accepts; under every accepted set every operation that succeeds under the defaults is run on a fork followed by two blocks - a panic in a handler or blocker that does not occur under the defaults is a violation. Token: the base set carries a beacon address; the beacon field ranges over every accepted spelling. Each module is evaluated in a child process under an address-space limit: a parameter-sized allocation that kills the process is located by two single-worker re-runs with a marker file and reported as a process abort.",
          "DESIGN.md §3 C16"),
  "C13": ("model_checking",
          "explicit-state exhaustive search with the HTLC, farm and service drivers in block-safety mode: recover() around every real begin/end blocker, due-processing oracles (refund exactly at expiry, pool refund exactly at end height, batches exactly on schedule) and raw-queue-versus-object hygiene evaluated in every reached state",
@@ -76,7 +76,7 @@ CHECKS = {
          "DESIGN.md §3 C17"),
  "C10": ("model_checking",
          "exhaustive enumeration of LossLessSwap over all scale pairs 0..18 x an input lattice x 8 ratios against exact rational arithmetic, plus explicit-state exhaustive search over ERC20 conversions (both directions, by min unit and by symbol, swap-to-native hook, ERC20 switch off/on, restart from exported genesis) with a store-backed fault-injecting EVM (<= 1 fault per conversion) and fee-token swaps at three ratios on the real token keeper",
-         "Kernel: 0 <= burned <= offered, minted*10^s_in <= burned*ratio*10^s_out, equality and unconvertible dust at ratio 1. Search: every conversion moves exactly the amount on both ledgers and keeps native+ERC20 supply constant; any failure (insufficient balance, blocked receiver, injected EVM call error / VM failure / wrong credited amount / balanceOf error) leaves both ledgers unchanged; fee swaps never burn more than offered, never mint more than worth, supplies move by exactly burned/minted, module account empty. The fee-swap registry is built once per application instance; one part issues the second fee token on the path with one of two scales; one part deploys the contract with other decimals than the token's scale (the EVM seam answers decimals() accordingly).",
+         "Kernel: 0 <= burned <= offered, minted*10^s_in <= burned*ratio*10^s_out, equality and unconvertible dust at ratio 1. Search: every conversion moves exactly the amount on both ledgers and keeps native+ERC20 supply constant; any failure (insufficient balance, blocked receiver, injected EVM call error / VM failure / wrong credited amount / balanceOf error) leaves both ledgers unchanged; fee swaps never burn more than offered, never mint more than worth, supplies move by exactly burned/minted, module account empty. The fee-swap registry is built once per application instance; one part issues the second fee token on the path with one of two scales; one part deploys the contract with other decimals than the token's scale (the EVM seam answers decimals() accordingly); contract-initiated conversions carry a real EVM message, addressed to the bound contract or to another contract that calls it.",
          "DESIGN.md §3 C10"),
  "C12": ("model_checking",
          "explicit-state exhaustive search with 15 module drivers (record, coinswap, farm x3, htlc x2, token, nft, mt x2, service, random, oracle x2; governance parameter changes offered as operations) wrapped by a genesis round-trip oracle evaluated in every reached state at the block boundary: export -> module's own validation -> InitGenesis on a second application instance with emptied stores -> export again (byte fixpoint) -> first begin-block -> query comparison on the original object ids; second variant after the modules' prepare-for-zero-height step, with a census of durable objects before/after that step",
@@ -88,7 +88,7 @@ CHECKS = {
          "DESIGN.md §3 C18"),
  "C11": ("model_checking",
          "explicit-state exhaustive search with 20 module drivers in which every transition is re-executed from the same pre-state on fresh application instances (state transplanted key by key = restart / other node) under deviating host clocks (+-7 min, +400 days, clock = block time) and map iteration orders (runtime seeds 1..7), both controlled through a build-time overlay of GOROOT's time and runtime packages; whole-application state hash, transaction result and exported genesis compared byte for byte; plus cross-process replicas: the enumerated op paths of every driver (length <= 4, first 1500) executed in three operating-system processes, one of them walking siblings in reverse order, digests of all stores and exports compared path by path",
-         "Every transition of every driver up to the (reduced) depth bound: the warm search instance under the baseline environment and cold replicas under deviating environments must agree on the result class, on every KV store of the application and on a digest of what the transition returned (typed responses, events with their attributes in order, begin/end-block events); one deviation runs under another host time zone; in every reached state the exported genesis of bank and the driver's modules must be identical under every map seed and clock offset. One search worker per process (seams are process-global), one process per driver. Across processes: the same history leads to the same stores and exported genesis whatever the process drew for itself (maphash seeds, start time) and whatever other paths it executed before.",
+         "Every transition of every driver up to the (reduced) depth bound: the warm search instance under the baseline environment and cold replicas under deviating environments must agree on the result class, on every KV store of the application and on a digest of what the transition returned (typed responses, events with their attributes in order, begin/end-block events); one deviation runs under another host time zone, one with node-local telemetry switched on; the digest includes the gas each transaction used; in every reached state the exported genesis of bank and the driver's modules must be identical under every map seed and clock offset. One search worker per process (seams are process-global), one process per driver. Across processes: the same history leads to the same stores and exported genesis whatever the process drew for itself (maphash seeds, start time) and whatever other paths it executed before.",
          "DESIGN.md §3 C11"),
 }
 NOT_YET = "check not built yet in this phase of the work (see DESIGN.md §6 change log); not claimed"
